@@ -154,6 +154,14 @@ CHECKS["C14"] = (
     "5/C14",
 )
 
+CHECKS["C15"] = (
+    "TikzOps.tla + Tikz.tla + Drawing.tla (EffColour) + TraceTikz.tla + TraceDrawing.tla",
+    "TLC: a model of the document generator (layers, colour interning, definitions before the single picture) whose every document is accepted by the token automaton of TikzOps, and greedy wrapping meeting the wrap contract; generated drawings (random names with underscores / backslashes, nested colours, labels up to 12 families, widths 1-30) are tokenised and run through the automaton by TLC, drawn colours compared with EffColour, escaping / label content / balanced_wrap results judged by TLA+ trace specs",
+    "Model checking of the generator model against the document automaton plus trace validation of real generated documents, colours, labels and wraps; the TLA+ part is a small automaton and a few string functions - the right size for what the property says.",
+    "Trusts TLC, TikzOps.tla, the tokeniser / statement parser of checks/c15.py and checks/render_common.py; stub measurer; colours as HTML hex; markers on the edge into a coloured subtree unconstrained.",
+    "5/C15",
+)
+
 NOT_YET = {}
 
 
